@@ -13,13 +13,18 @@ for n in 1 2; do
   cp -a /repo/. "$tree"/
   mkdir -p "$tree/seed_out"
   # demos must import the library from the tree they sit in (seed_out/..), not from the agent's worktree
-  sed "s#'${SEED_SRC_PREFIX:-/tmp/seed-}$id'#__import__('os').path.dirname(__import__('os').path.dirname(__import__('os').path.abspath(__file__)))#g; s#\"${SEED_SRC_PREFIX:-/tmp/seed-}$id\"#__import__('os').path.dirname(__import__('os').path.dirname(__import__('os').path.abspath(__file__)))#g" "$src/demo$n.py" > "$tree/seed_out/demo$n.py"
+  sed "s#'${SEED_SRC_PREFIX:-/tmp/seed-}$id'#__import__('os').path.dirname(__import__('os').path.dirname(__import__('os').path.abspath(__file__)))#g; s#\"${SEED_SRC_PREFIX:-/tmp/seed-}$id\"#__import__('os').path.dirname(__import__('os').path.dirname(__import__('os').path.abspath(__file__)))#g" "$src/demo$n.py" > "$tree/seed_out/demo$n.stored.py"
+  # any other mention of the agent's worktree (e.g. an assertion on xtuml.__file__): placeholder in the stored copy,
+  # the private tree's path in the copy that is run
+  sed -i "s#${SEED_SRC_PREFIX:-/tmp/seed-}$id#@SEEDTREE@#g" "$tree/seed_out/demo$n.stored.py"
+  sed "s#@SEEDTREE@#$tree#g" "$tree/seed_out/demo$n.stored.py" > "$tree/seed_out/demo$n.py"
   # helper modules a demo imports from its own directory
   for h in "$src"/*.py; do case "$(basename "$h")" in demo*.py) ;; *) cp "$h" "$tree/seed_out/";; esac; done
   clean_rc=$( (cd "$tree" && timeout 300 /venv/bin/python seed_out/demo$n.py >/dev/null 2>&1; echo $?) )
   if ! (cd "$tree" && git apply "$src/change$n.diff"); then
     echo "$id-$n: patch does not apply to current /repo"; rm -rf "$tree"; continue
   fi
+  if [ -n "$SEED_REGEN" ]; then rm -f "$tree"/bridgepoint/__oal_*tab.py "$tree"/xtuml/__xtuml_*tab.py; (cd "$tree" && /venv/bin/python /verif/tools/regen_tables.py "$tree" >/dev/null 2>&1); fi
   tests=$( (cd "$tree" && timeout 900 /venv/bin/python -m pytest -q -p no:cacheprovider 2>&1 | tail -1) )
   demo_rc=$( (cd "$tree" && timeout 300 /venv/bin/python seed_out/demo$n.py >/dev/null 2>&1; echo $?) )
   results=""
@@ -34,7 +39,7 @@ for n in 1 2; do
   case "$tests" in *"244 passed"*) ok=1;; *) ok=0;; esac
   if [ "$clean_rc" = 0 ] && [ "$demo_rc" != 0 ] && [ $ok = 1 ]; then
     d=/verif/seeded/$id-$((n+off)); mkdir -p "$d"
-    cp "$src/change$n.diff" "$d/patch.diff"; cp "$tree/seed_out/demo$n.py" "$d/demo.py"; cp "$src/notes.md" "$d/notes.md"
+    cp "$src/change$n.diff" "$d/patch.diff"; cp "$tree/seed_out/demo$n.stored.py" "$d/demo.py"; cp "$src/notes.md" "$d/notes.md"
     for h in "$src"/*.py; do case "$(basename "$h")" in demo*.py) ;; *) cp "$h" "$d/";; esac; done
     /venv/bin/python - "$d" "$id" "$((n+off))" "$tests" "$clean_rc" "$demo_rc" "$results" <<'EOF'
 import json, sys
